@@ -352,6 +352,120 @@ func verdictClass(expr string, n promParser.Node, s utils.Source) string {
 	return ""
 }
 
+// ---- Go mirrors of the proved-fragment predicates of Model/PromClass.v and Model/PromAlways.v (cross-checked per case) ----
+
+func plainMatch(vm *promParser.VectorMatching) bool {
+	return vm == nil || (vm.Card == promParser.CardOneToOne && !vm.On)
+}
+
+var exactMapFuncs = map[string]bool{}
+
+func init() {
+	for _, f := range []string{"abs", "sgn", "acos", "acosh", "asin", "asinh", "atan", "atanh", "cos", "cosh", "sin", "sinh", "tan", "tanh",
+		"ceil", "floor", "round", "deg", "rad", "ln", "log10", "log2", "sqrt", "exp", "timestamp", "clamp_max", "clamp_min", "sort", "sort_desc"} {
+		exactMapFuncs[f] = true
+	}
+}
+
+func isSetOp(op promParser.ItemType) bool {
+	return op == promParser.LAND || op == promParser.LOR || op == promParser.LUNLESS
+}
+
+func argIsSeries(c *promParser.Call, i int) bool {
+	if len(c.Func.ArgTypes) == 0 {
+		return false
+	}
+	t := c.Func.ArgTypes[min(i, len(c.Func.ArgTypes)-1)]
+	return t == promParser.ValueTypeVector || t == promParser.ValueTypeMatrix
+}
+
+// scalarLike mirrors PromAlways.scalar_like
+func scalarLike(e promParser.Node) bool {
+	switch n := e.(type) {
+	case *promParser.NumberLiteral:
+		return true
+	case *promParser.ParenExpr:
+		return scalarLike(n.Expr)
+	case *promParser.UnaryExpr:
+		return scalarLike(n.Expr)
+	case *promParser.Call:
+		return n.Func.Name == "scalar" || n.Func.Name == "time" || n.Func.Name == "pi"
+	case *promParser.BinaryExpr:
+		return n.VectorMatching == nil && !isSetOp(n.Op) && scalarLike(n.LHS) && scalarLike(n.RHS)
+	}
+	return false
+}
+
+// k7FreeVec mirrors PromAlways.k7_free_vec
+func k7FreeVec(e promParser.Node) bool {
+	switch n := e.(type) {
+	case *promParser.VectorSelector:
+		return true
+	case *promParser.ParenExpr:
+		return k7FreeVec(n.Expr)
+	case *promParser.UnaryExpr:
+		return k7FreeVec(n.Expr)
+	case *promParser.AggregateExpr:
+		switch n.Op {
+		case promParser.TOPK, promParser.BOTTOMK, promParser.LIMITK, promParser.LIMIT_RATIO:
+			return false
+		}
+		return k7FreeVec(n.Expr)
+	case *promParser.Call:
+		switch {
+		case n.Func.Name == "vector", n.Func.Name == "absent", n.Func.Name == "absent_over_time":
+			return true
+		case contains(pqTimeFnsAll, n.Func.Name):
+			if len(n.Args) == 0 {
+				return true
+			}
+			return len(n.Args) == 1 && argIsSeries(n, 0) && k7FreeVec(n.Args[0])
+		case exactMapFuncs[n.Func.Name]:
+			return len(n.Args) == 1 && argIsSeries(n, 0) && k7FreeVec(n.Args[0])
+		}
+		return false
+	case *promParser.BinaryExpr:
+		return n.VectorMatching == nil && !isSetOp(n.Op) &&
+			((k7FreeVec(n.LHS) && scalarLike(n.RHS)) || (scalarLike(n.LHS) && k7FreeVec(n.RHS)))
+	}
+	return false
+}
+
+var pqTimeFnsAll = []string{"days_in_month", "day_of_month", "day_of_week", "day_of_year", "hour", "minute", "month", "year"}
+
+// k3Free mirrors PromAlways.k3_free
+func k3Free(e promParser.Node) bool {
+	switch n := e.(type) {
+	case *promParser.VectorSelector:
+		return true
+	case *promParser.MatrixSelector:
+		return k3Free(n.VectorSelector)
+	case *promParser.SubqueryExpr:
+		return k3Free(n.Expr)
+	case *promParser.ParenExpr:
+		return k3Free(n.Expr)
+	case *promParser.UnaryExpr:
+		return k3Free(n.Expr)
+	case *promParser.AggregateExpr:
+		switch n.Op {
+		case promParser.COUNT_VALUES, promParser.LIMITK, promParser.LIMIT_RATIO:
+			return false
+		}
+		return k3Free(n.Expr)
+	case *promParser.BinaryExpr:
+		return n.VectorMatching == nil && !isSetOp(n.Op) &&
+			((k3Free(n.LHS) && scalarLike(n.RHS)) || (scalarLike(n.LHS) && k3Free(n.RHS)))
+	}
+	return false
+}
+
+// joinLabelOK mirrors PromClass.join_label_ok with U = __name__ :: label universe
+func joinLabelOK(vm *promParser.VectorMatching, many promParser.Node, l string) bool {
+	inU := l == "__name__" || contains(pqLabels, l)
+	return (mustHave(many, l) && (vm.On || l != "__name__")) ||
+		(!vm.On && len(vm.Include) == 0 && k3Free(many) && inU && l != "__name__")
+}
+
 // classRows mirrors Model.PromClass.class_rows: one row per binary node in pre-order --
 // [k1_class; k2_class; k6_class; k7_op lhs; k7_op rhs] ++ (for a vector/vector node) k3_mech per label of pqTemplateVars.
 // The correspondence check compares it with the Gallina definitions on every case (tag "classes"), so the guard
@@ -371,12 +485,17 @@ func classRows(root promParser.Node) string {
 			coqBool(cmp && !(constValOK(b.LHS) && constValOK(b.RHS))),
 			coqBool(k7Decider(b.LHS)),
 			coqBool(k7Decider(b.RHS)),
+			// proved-fragment predicates (Model.PromClass.in_fragment / join_label_ok)
+			coqBool(plainMatch(vm) && constValOK(b.LHS) && constValOK(b.RHS)),
+			coqBool(k7FreeVec(b.LHS)),
+			coqBool(k7FreeVec(b.RHS)),
 		}
 		if vm != nil {
 			many := b.LHS
 			if vm.Card == promParser.CardOneToMany {
 				many = b.RHS
 			}
+			row = append(row, coqBool(k3Free(many)))
 			for _, l := range pqTemplateVars {
 				row = append(row, coqBool(k3Mechanism(b, many, l)))
 			}
@@ -703,6 +822,26 @@ func (pr *pqRunner) oracleC12(base pqCase, expr string, nodes []promParser.Node,
 		// a parent inherits the flags of a dead operand (absent(<dead>) is not dead since fix f3c0f95).
 		if allDead(srcs) && !deadInherited(expr, n) {
 			pr.rep.hist("c12:all-branches-dead")
+			if bb, ok := stripParens(n).(*promParser.BinaryExpr); ok {
+				kind, frag := "", false
+				switch {
+				case bb.Op.IsComparisonOperator():
+					kind, frag = "static", !bb.ReturnBool && plainMatch(bb.VectorMatching) && constValOK(bb.LHS) && constValOK(bb.RHS)
+				case bb.Op == promParser.LUNLESS && bb.VectorMatching != nil:
+					kind, frag = "unless-on", bb.VectorMatching.On && len(bb.VectorMatching.MatchingLabels) == 0 && k7FreeVec(bb.RHS)
+				}
+				if kind != "" {
+					cls := verdictClassOf(expr, n, srcs, []string{"K1", "K6", "K2", "K7"})
+					switch {
+					case cls != "":
+						pr.rep.hist("verdict:" + kind + ":in-known-class")
+					case frag:
+						pr.rep.hist("verdict:" + kind + ":proved-fragment")
+					default:
+						pr.rep.hist("verdict:" + kind + ":tested-only")
+					}
+				}
+			}
 			if res.Kind == "scalar" || len(res.Series) > 0 {
 				// per verdict: every branch is dead; the claim fails because at least one of these verdicts is wrong
 				known := c12ClassID[verdictClassOf(expr, n, srcs, []string{"K1", "K6"})]
@@ -729,6 +868,18 @@ func (pr *pqRunner) oracleC12(base pqCase, expr string, nodes []promParser.Node,
 		if b.Op == promParser.LOR {
 			if orRHSDead(expr, b) {
 				pr.rep.hist("c12:or-rhs-dead")
+				{
+					rhsN := len(utils.LabelsSource(expr, b.RHS))
+					cls := verdictClassOf(expr, b, srcs[len(srcs)-rhsN:], []string{"K2", "K7", "K1", "K6"})
+					switch {
+					case cls != "":
+						pr.rep.hist("verdict:or-rhs:in-known-class")
+					case b.VectorMatching.On && len(b.VectorMatching.MatchingLabels) == 0 && k7FreeVec(b.LHS):
+						pr.rep.hist("verdict:or-rhs:proved-fragment")
+					default:
+						pr.rep.hist("verdict:or-rhs:tested-only")
+					}
+				}
 				if !sameSeriesSets(res.Series, results[li].Series) {
 					// per verdict: the right-hand branches marked dead at this very node
 					rhsN := len(utils.LabelsSource(expr, b.RHS))
@@ -753,6 +904,7 @@ func (pr *pqRunner) oracleC12(base pqCase, expr string, nodes []promParser.Node,
 		// on one copy is a verdict on that sub-expression.  canJoin reads nothing but the label sets, hence branches with
 		// equal keys get the same verdict unless the label bookkeeping is corrupted (e.g. an empty name left behind).
 		anyFlagged := false
+		joinFragment := true
 		jclass := ""
 		manyGroups := map[string]bool{}
 		for _, s := range srcs {
@@ -781,6 +933,9 @@ func (pr *pqRunner) oracleC12(base pqCase, expr string, nodes []promParser.Node,
 					if c := joinClass(b, many, l); c != "" {
 						jclass = c
 					}
+					if !joinLabelOK(b.VectorMatching, many, l) {
+						joinFragment = false
+					}
 				}
 			}
 			srcFlagged := true
@@ -802,6 +957,15 @@ func (pr *pqRunner) oracleC12(base pqCase, expr string, nodes []promParser.Node,
 			continue
 		}
 		pr.rep.hist("c12:join-all-flagged")
+		// where does this verdict stand: known class / inside the fragment of theorem C12_impossible_sound / tested only
+		switch {
+		case jclass != "":
+			pr.rep.hist("verdict:join:in-known-class")
+		case b.Op != promParser.LOR && joinFragment:
+			pr.rep.hist("verdict:join:proved-fragment")
+		default:
+			pr.rep.hist("verdict:join:tested-only")
+		}
 		bad := false
 		if b.Op == promParser.LUNLESS {
 			bad = !sameSeriesSets(res.Series, results[index[many]].Series)
@@ -821,6 +985,16 @@ func (pr *pqRunner) oracleC12(base pqCase, expr string, nodes []promParser.Node,
 			pr.failure(id, fmt.Sprintf("C12: every join of `%s` is reported as never matching but the operation returns %d series (operand contributes)",
 				n.String(), len(res.Series)), c, known)
 		}
+	}
+}
+
+func stripParens(n promParser.Node) promParser.Node {
+	for {
+		p, ok := n.(*promParser.ParenExpr)
+		if !ok {
+			return n
+		}
+		n = p.Expr
 	}
 }
 
